@@ -73,7 +73,7 @@ Verdict(c) ==
       revisit == \E a, b \in 1..k : a < b /\ sf[a] = sf[b] /\ \E g \in a..(b-1) : sf[g] # sf[g+1]
       size0 == Size(fs[1])
       c11 == (IF revisit THEN <<"V:C11.revisit">> ELSE <<>>)
-             \o (IF (k - 1) > 2 * size0 * size0 + 10 \/ c.capped THEN <<"V:C11.step_bound">> ELSE <<>>)
+             \o (IF c.nsteps > 2 * size0 * size0 + 10 \/ c.capped THEN <<"V:C11.step_bound">> ELSE <<>>)
              \o (IF ~c.capped /\ ~NoRuleApplies(fs[k]) THEN <<"V:C11.not_rule_free">> ELSE <<>>)
              \o (IF c.warn /\ size0 <= 20 /\ c.budget >= 1000 THEN <<"V:C11.warning_small_input">> ELSE <<>>)
              \o (IF ~c.capped /\ ~fs[k].red THEN <<"V:C11.not_flagged">> ELSE <<>>)
